@@ -14,3 +14,7 @@
 (define-fun si_len ((a Int) (b Int) (st Int)) Int
   (ite (< st 0) (ite (>= b a) 0 (+ (div (- (- a b) 1) (- st)) 1))
                 (ite (>= a b) 0 (+ (div (- (- b a) 1) st) 1))))
+; range(start, stop, step): number of elements (step != 0) and the k-th element, over unbounded integers
+(define-fun range_len ((start Int) (stop Int) (step Int)) Int
+  (ite (> step 0) (ite (< start stop) (+ (div (- (- stop start) 1) step) 1) 0)
+                  (ite (> start stop) (+ (div (- (- start stop) 1) (- step)) 1) 0)))
